@@ -403,7 +403,7 @@ def make_cases(ctx):
 VIEW_KEYS = ("version", "suite", "master", "ems", "etm", "appProto",
              "cl_app_secret", "sr_app_secret", "exporterMasterSecret",
              "resumptionMasterSecret", "ems_conn", "etm_conn", "next_proto",
-             "exporter")
+             "exporter", "serverName")
 
 
 def run_scsv(ctx, cid, P):
